@@ -101,6 +101,8 @@ pub struct Arena {
     eval_epoch: u32,
     eval_memo: Vec<(u32, u64)>,
     pub max_input: i64,
+    /// total number of (atom, coefficient) entries held by Lin nodes (memory accounting)
+    pub lin_entries: usize,
 }
 
 impl Arena {
@@ -114,6 +116,7 @@ impl Arena {
             eval_epoch: 0,
             eval_memo: Vec::new(),
             max_input: -1,
+            lin_entries: 0,
         };
         a.nodes.push((Node::Zero, 0));
         a
@@ -141,6 +144,9 @@ impl Arena {
             return h;
         }
         let h = self.nodes.len() as T;
+        if let Node::Lin(ts, _) = &n {
+            self.lin_entries += ts.len();
+        }
         self.nodes.push((n.clone(), w));
         self.index.insert((n, w), h);
         h
